@@ -186,6 +186,8 @@ func (fe *FE) computeLoops() {
 				li.inv = append(li.inv, c)
 			case "decreases":
 				li.dec = c
+			case "exit":
+				li.exit = append(li.exit, c)
 			default:
 				fe.errorf("loop %d: unknown clause kind %s", i, c.Kind)
 			}
@@ -364,6 +366,7 @@ func (fe *FE) Run() {
 	fe.runBlock(st, fn.Blocks[0], nil)
 	fe.drainJoins()
 	fe.checkPanicSafe()
+	fe.checkCapturedLoopVars()
 }
 
 // checkPanicSafe: after a write to pre-existing state nothing that can panic is executed (so a panic of this function
@@ -447,6 +450,26 @@ func (fe *FE) runBlock(st *State, b, pred *ssa.BasicBlock) {
 		return
 	}
 	st.curBlock = b
+	// leaving a loop (exit edge, break, ...): its exit clauses must hold
+	if pred != nil && len(st.frames) == 0 {
+		for _, h := range fe.loopOrd {
+			li := fe.loops[h]
+			isDone := false // b is the loop's done block: the successor of the head outside the body (also the target of break)
+			for _, sc := range h.Succs {
+				if sc == b && !li.body[sc] {
+					isDone = true
+				}
+			}
+			if len(li.exit) > 0 && isDone && st.open[h] && li.body[pred] && !li.body[b] && !st.paniced {
+				ctx := fe.ownCtx(st)
+				ctx.head = h
+				for i, c := range li.exit {
+					fe.curPos = fmt.Sprintf("%s:%d", shortFile(c.File), c.Line)
+					fe.assertExpr(st, ctx, c.E, "loop-exit", fmt.Sprintf("loop%d.%s", li.ord, clauseLabel(c, i)), fe.tagsOf(c), c.Src)
+				}
+			}
+		}
+	}
 	// loop head handling
 	if li, isHead := fe.loops[b]; isHead {
 		if st.open[b] {
